@@ -509,6 +509,29 @@ PROP_KINDS = {
 SEG_ONLY = {"C07", "C08", "C09"}
 
 
+EXH_SPEC = {"cfg": "pos", "ndim": 3, "with_ids": True, "scale": None,
+            "nodes": [{"id": 1, "time": 0, "pos": 1, "tid": 1, "lin": 1}, {"id": 2, "time": 1, "pos": 2, "tid": 2, "lin": 1},
+                      {"id": 3, "time": 2, "pos": 3, "tid": 3, "lin": 1}, {"id": 4, "time": 1, "pos": 4, "tid": 4, "lin": 2},
+                      {"id": 5, "time": 3, "pos": 5, "tid": 4, "lin": 2}],
+            "edges": [{"u": 1, "v": 2}, {"u": 1, "v": 3}, {"u": 4, "v": 5}]}
+
+
+def resolve_sym(sym: str, tracks) -> dict:
+    """symbols of the exhaustive C02 enumeration, resolved against the live state so that the
+    edit is always accepted: a = toggle edge 2->5 (forced: detaches 4->5, a composite that nests
+    UserDeleteEdge); b = toggle node 9 spliced into the skip edge 4->5 / 2->5 (composite)"""
+    g = tracks.graph
+    if sym == "a":
+        if g.has_edge(2, 5):
+            return {"op": "deledge", "u": 2, "v": 5}
+        return {"op": "addedge", "u": 2, "v": 5, "force": 1}
+    if sym == "b":
+        if 9 in g:
+            return {"op": "delnode", "n": 9}
+        return {"op": "addnode", "id": 9, "time": 2, "tid": g.nodes[5]["track_id"], "force": 1, "pos": 9}
+    return {"op": {"u": "undo", "r": "redo"}[sym]}
+
+
 def run_session(prop: str, spec: dict, rng: random.Random, nops: int, res: Result,
                 fixed_ops: list[dict] | None = None) -> tuple[list[dict], list[str], list[dict], list[Failure]]:
     """executes a session on the real code; returns (ops, outcomes, impl states, oracle failures)"""
@@ -569,6 +592,8 @@ def run_session(prop: str, spec: dict, rng: random.Random, nops: int, res: Resul
             if not queue:
                 break
             op = queue.pop(0)
+            if "sym" in op:
+                op = resolve_sym(op["sym"], tracks)
         else:
             if step >= nops:
                 break
@@ -844,6 +869,133 @@ def branch_tag_from(g: nx.DiGraph, op: dict) -> str:
     return k
 
 
+
+# ---------------------------------------------------------------------------------------------
+# C01 at the level of primitive actions: action.inverse() and action.inverse().inverse()
+# ---------------------------------------------------------------------------------------------
+def prim_cases(prop: str, rng: random.Random, n: int, res: Result) -> list[Failure]:
+    from funtracks.actions import (AddEdge, AddNode, DeleteEdge, DeleteNode, UpdateNodeAttrs,
+                                   UpdateNodeSeg, UpdateTrackIDs)
+    fails: list[Failure] = []
+    seen: set = set()
+    for _ in range(n):
+        spec = G.gen_case(rng, with_ids=True)
+        try:
+            ses = Session(spec)
+        except Exception as e:
+            res.count(f"session-aborted:{type(e).__name__}")
+            continue
+        case, t = ses.case, ses.tracks
+        g = t.graph
+        nodes = list(g.nodes)
+        T = case.shape[0] if case.shape else 5
+        kind = rng.choice(["AddNode", "DeleteNode", "AddEdge", "DeleteEdge", "UpdateNodeAttrs",
+                           "UpdateNodeSeg", "UpdateTrackIDs"])
+        desc: dict[str, Any] = {"prim": kind}
+        try:
+            if kind == "AddNode":
+                nid = G.fresh_node_id(rng, t)
+                time_ = rng.randrange(T)
+                attrs: dict[str, Any] = {"time": time_, "track_id": rng.randrange(1, 40), "lineage_id": rng.randrange(1, 40)}
+                px = None
+                if case.cfg == "seg":
+                    free = G.free_pixels(case, t, time_)
+                    if not free:
+                        continue
+                    pl = rng.sample(free, rng.randint(1, min(3, len(free))))
+                    px = case.idx_tuple(pl)
+                    desc["pixels"] = pl
+                elif case.cfg == "axes":
+                    for a in F.axis_names(case.ndim):
+                        attrs[a] = float(rng.randrange(50))
+                else:
+                    attrs["pos"] = [float(rng.randrange(50))] * (case.ndim - 1)
+                if rng.random() < 0.5:
+                    attrs["score"] = rng.randrange(100)
+                desc.update(node=nid, attrs={k: (v if not isinstance(v, list) else list(v)) for k, v in attrs.items()})
+                make = lambda: AddNode(t, nid, attrs, pixels=px)  # noqa: E731
+            elif kind == "DeleteNode":
+                iso = [n for n in nodes if g.degree(n) == 0]
+                if not iso:
+                    continue
+                n_ = rng.choice(iso)
+                desc["node"] = n_
+                make = lambda: DeleteNode(t, n_)  # noqa: E731
+            elif kind == "AddEdge":
+                pairs = [(u, v) for u in nodes for v in nodes if u != v and not g.has_edge(u, v)]
+                if not pairs:
+                    continue
+                e = rng.choice(pairs)
+                desc["edge"] = e
+                make = lambda: AddEdge(t, e)  # noqa: E731
+            elif kind == "DeleteEdge":
+                if not g.edges:
+                    continue
+                e = rng.choice(list(g.edges))
+                desc["edge"] = e
+                make = lambda: DeleteEdge(t, e)  # noqa: E731
+            elif kind == "UpdateNodeAttrs":
+                if not nodes:
+                    continue
+                n_ = rng.choice(nodes)
+                at = {"score": rng.randrange(100)}
+                desc.update(node=n_, attrs=at)
+                make = lambda: UpdateNodeAttrs(t, n_, at)  # noqa: E731
+            elif kind == "UpdateNodeSeg":
+                if case.cfg != "seg" or not nodes:
+                    continue
+                n_ = rng.choice(nodes)
+                added = rng.random() < 0.5
+                tm = g.nodes[n_]["time"]
+                if added:
+                    free = G.free_pixels(case, t, tm)
+                    if not free:
+                        continue
+                    pl = rng.sample(free, rng.randint(1, min(3, len(free))))
+                else:
+                    own = case.pixels_of(t, n_)
+                    pl = rng.sample(own, rng.randint(1, len(own)))
+                desc.update(node=n_, pixels=pl, added=added)
+                px2 = case.idx_tuple(pl)
+                make = lambda: UpdateNodeSeg(t, n_, px2, added=added)  # noqa: E731
+            else:  # UpdateTrackIDs: the new id must not be found downstream
+                if not nodes:
+                    continue
+                n_ = rng.choice(nodes)
+                down = nx.descendants(g, n_) | {n_}
+                used = {g.nodes[x]["track_id"] for x in down}
+                cand = [i for i in range(1, 45) if i not in used]
+                new = rng.choice(cand)
+                lin = rng.choice([None, rng.randrange(1, 45)])
+                desc.update(start=n_, tid=new, lin=lin)
+                make = lambda: UpdateTrackIDs(t, n_, new, lin)  # noqa: E731
+            a0 = observe(t)
+            act = make()
+            b0 = observe(t)
+            inv = act.inverse()
+            a1 = observe(t)
+            inv.inverse()
+            b1 = observe(t)
+        except Exception as e:
+            res.count(f"prim:{kind}:raised:{type(e).__name__}")
+            continue
+        res.evaluations += 1
+        res.count(f"prim:{kind}")
+        res.nontrivial.add(h([spec["nodes"], spec["edges"], desc]))
+        if a1 != a0:
+            sig = f"{prop}|prim|{kind}|inverse-does-not-restore"
+            if sig not in seen:
+                seen.add(sig)
+                fails.append(Failure("oracle", prop, sig, f"{desc}: inverse() leaves " + obs_diff(a0, a1),
+                                     {"spec": spec, "primitive": desc}))
+        elif b1 != b0:
+            sig = f"{prop}|prim|{kind}|inverse-of-inverse-differs"
+            if sig not in seen:
+                seen.add(sig)
+                fails.append(Failure("oracle", prop, sig, f"{desc}: inverse().inverse() leaves " + obs_diff(b0, b1),
+                                     {"spec": spec, "primitive": desc}))
+    return fails
+
 # ---------------------------------------------------------------------------------------------
 # correspondence with the Lean model
 # ---------------------------------------------------------------------------------------------
@@ -966,12 +1118,15 @@ def worker(args) -> Result:
         if len(batch_lines) > 4000:
             flush()
     flush()
+    if prop == "C01" and fixed is None:
+        for f in prim_cases(prop, random.Random(seed ^ 0x5EED), max(20, nsessions), res):
+            res.failures.append(f)
     return res
 
 
 BUDGET = {  # (sessions, ops per session) per tier
-    "quick": {"default": (600, 12), "C02": (700, 14), "C07": (400, 10), "C08": (300, 10), "C09": (400, 10), "C10": (400, 12)},
-    "thorough": {"default": (8000, 14), "C02": (8000, 16), "C07": (5000, 12), "C08": (3000, 12), "C09": (5000, 12), "C10": (5000, 14)},
+    "quick": {"default": (2400, 12), "C01": (1600, 10), "C02": (2000, 14), "C07": (1600, 10), "C08": (1200, 10), "C09": (1600, 10), "C10": (1600, 12)},
+    "thorough": {"default": (30000, 14), "C01": (20000, 12), "C02": (24000, 16), "C07": (20000, 12), "C08": (12000, 12), "C09": (20000, 12), "C10": (20000, 14)},
 }
 
 RULES = {
@@ -1006,7 +1161,18 @@ def run(prop: str, tier: str, seed: int, intensify: bool = False) -> Result:
     corpus = load_corpus(prop)
     if corpus:
         jobs.insert(0, (prop, seeds[0], 0, nops, corpus))
+    if prop == "C02":
+        import itertools
+        maxlen = 5 if tier == "quick" else 7
+        seqs = [list(q) for L in range(1, maxlen + 1) for q in itertools.product("abur", repeat=L)]
+        chunk = (len(seqs) + shards - 1) // shards
+        for i in range(0, len(seqs), chunk):
+            jobs.append((prop, seeds[0], 0, nops,
+                         [{"spec": EXH_SPEC, "ops": [{"sym": c} for c in q]} for q in seqs[i:i + chunk]]))
     res = Result(rule=RULES["default"])
+    if prop == "C02":
+        res.rule += (f" PLUS exhaustively all {len(seqs)} sequences over {{edit_a, edit_b, undo, redo}} up to length "
+                     f"{maxlen} from a fixed 5-node forest (edit_a/edit_b are composite forced edits that nest user actions).")
     with mp.get_context("fork").Pool(min(shards, len(jobs))) as pool:
         for r in pool.imap_unordered(worker, jobs):
             res.merge(r)
